@@ -1,7 +1,7 @@
 ---------------------------- MODULE TracePhase1 ----------------------------
 (* Trace validation for C33..C38 (impl -> spec).  One event per run of the  *)
 (* real pallas_validate::phase1::validate_tx on a (mutated) fixture:         *)
-(*   {"ev":"tx","fx":F,"era":E,"mut":class,"rule":R|"", "boundary":bool,     *)
+(*   {"ev":"tx","seq":n,"fx":F,"era":E,"mut":class,"rule":R|"","boundary":b, *)
 (*    "verdict":"accept"|"reject"|"panic","detail":..., "T":{projection}}     *)
 (*   {"ev":"base", ...same...}   the un-mutated fixture (must be accepted)    *)
 (* T is the independent projection (see Phase1).  The constant Prop selects   *)
@@ -11,13 +11,15 @@
 EXTENDS Phase1, TraceKit
 
 CONSTANT Prop
-VARIABLE l
-tvars == <<t, phase, verdict, rule, l>>
+VARIABLES l,      \* index of the next event
+          fx      \* fixture whose baseline was validated last
+tvars == <<t, phase, verdict, rule, l, fx>>
 
 TraceMutate(R, T) == T
 TraceSideEffects(R) == {}
 
-IsEvent(e) == l <= NRec /\ Rec[l].ev = e /\ l' = l + 1
+\* events are numbered consecutively (nothing was lost between the harness and TLC)
+IsEvent(e) == l <= NRec /\ Rec[l].ev = e /\ Rec[l].seq = l /\ l' = l + 1
 
 \* the demand of each property on one observed run
 Demand(r) ==
@@ -36,12 +38,12 @@ Observe(r) ==
     /\ verdict' = r.verdict
     /\ rule' = r.rule
 
-TInit == l = 1 /\ t = [era |-> "none"] /\ phase = "fresh" /\ verdict = "none" /\ rule = "none"
+TInit == l = 1 /\ fx = "" /\ t = [era |-> "none"] /\ phase = "fresh" /\ verdict = "none" /\ rule = "none"
 
 \* validate_tx on the un-mutated fixture: accepted, and the property's demand holds
-TBase == IsEvent("base") /\ Rec[l].verdict = "accept" /\ Demand(Rec[l]) /\ Observe(Rec[l]) /\ phase' = "validated"
-\* validate_tx on a mutant
-TTx   == IsEvent("tx") /\ Demand(Rec[l]) /\ Observe(Rec[l]) /\ phase' = "done"
+TBase == IsEvent("base") /\ Rec[l].verdict = "accept" /\ Demand(Rec[l]) /\ Observe(Rec[l]) /\ phase' = "validated" /\ fx' = Rec[l].fx
+\* validate_tx on a mutant of that baseline
+TTx   == IsEvent("tx") /\ Rec[l].fx = fx /\ Demand(Rec[l]) /\ Observe(Rec[l]) /\ phase' = "done" /\ UNCHANGED fx
 
 TNext == TBase \/ TTx
 =============================================================================
